@@ -480,9 +480,11 @@ class ParallelSpecFinder(Generic[ClassType1, ObjType1, ClassType2, ObjType2]):
         if ((), ()) in matching_info[(id1, id2)]:
             sp1[id1], sp2[id2] = (), ()
             return ParallelSpecFinder._VALID
-        # If both are assigned, we are done
+        # If both are assigned, we are done if their rules were matched together
         if id1 in sp1 and id2 in sp2:
-            return ParallelSpecFinder._VALID
+            if (sp1[id1], sp2[id2]) in matching_info[(id1, id2)]:
+                return ParallelSpecFinder._VALID
+            return ParallelSpecFinder._INVALID
         return ParallelSpecFinder._UNKNOWN
 
     @staticmethod
@@ -688,6 +690,8 @@ class EqPathParallelSpecFinder(
         # If both ids are set we still need to check if they are valid in terms
         # of eq paths since we may have arrived from different parents.
         if id1 in sp1 and id2 in sp2:
+            if (sp1[id1], sp2[id2]) not in matching_info[(id1, id2)]:
+                return EqPathParallelSpecFinder._INVALID
             if self._eq_path_matches(
                 id1, id2, pid1, pid2, idx1, idx2, sp1, sp2, eq_path_tracker
             ):
